@@ -1278,6 +1278,12 @@ func (x *Evaluator) evalElemRead(a *ssa.IndexAddr, t types.Type, e *env, c *eval
 	if len(l.Prefix) > 0 {
 		return joinValsOr(l.uniform(), x.symbolic(t, "elem"))
 	}
+	// one particular element of a handed list (vars[0]) is not "the current element" (vars[*])
+	if k, ok := a.Index.(*ssa.Const); ok && k.Value != nil && l.Origin != "" {
+		if o, ok := l.Elem.(OpaqueV); ok && o.Origin == l.Origin+"[*]" {
+			return OpaqueV{fmt.Sprintf("%s[%s]", l.Origin, k.Value.ExactString())}
+		}
+	}
 	return l.Elem
 }
 
